@@ -16,7 +16,7 @@ func init() {
 		"non-trivial = not the all-valid document; distinct = (source hash, document)"
 }
 
-var c11Devs = []string{"ANYOF_MERGED_FIELD_TYPES", "ALLOF_FIRST_WINS", "COMPOSITE_DEF_REF_IS_ANY", "REF_UNTYPED_DEF_IS_ANY"}
+var c11Devs = []string{"REQUIRED_UNDECLARED_IGNORED", "ANYOF_MERGED_FIELD_TYPES", "ALLOF_FIRST_WINS", "COMPOSITE_DEF_REF_IS_ANY", "REF_UNTYPED_DEF_IS_ANY"}
 
 type c11Branch struct {
 	props []string
@@ -34,6 +34,14 @@ var c11Props = map[string]J{
 }
 
 func (b c11Branch) schema() J {
+	if len(b.props) == 0 {
+		// the "tighten" idiom: an untyped branch that only carries a required list
+		r := A{}
+		for _, x := range b.req {
+			r = append(r, x)
+		}
+		return J{"required": r}
+	}
 	ps := J{}
 	for _, p := range b.props {
 		ps[p] = space.Clone(c11Props[p])
@@ -110,7 +118,17 @@ func c11(ctx *Ctx) {
 	}
 	var cases []SCase
 	paths := map[string][]any{}
+	tighten := []c11Branch{{nil, []string{"a"}}, {nil, []string{"b", "c"}}}
 	for _, comp := range []string{"allOf", "anyOf"} {
+		lists := lists
+		if comp == "allOf" {
+			// allOf only: a typed branch followed / preceded by an untyped required-only branch
+			for _, x := range alpha {
+				for _, t := range tighten {
+					lists = append(lists, []c11Branch{x, t}, []c11Branch{t, x})
+				}
+			}
+		}
 		for _, l := range lists {
 			refModes := []int{0, 1}
 			if ctx.Level >= 1 && len(l) <= 2 {
